@@ -92,6 +92,10 @@ func bitRefs(w *World, fn *ssa.Function) []BitRef {
 				return
 			}
 			if fa.VN(stripConv(ox)) != posVN {
+				// equal modulo 64 is enough for the offset
+				if cg, ok := fa.CongLin(fa.Lin(ox).Sub(br.PosLin), 64); ok && cg == 0 {
+					return
+				}
 				br.Problem = fmt.Sprintf("word selected by position %s but bit offset taken from position %s", br.PosLin, fa.Lin(ox))
 			}
 		}
